@@ -32,6 +32,56 @@ def hash_container(ty):
     return any(h in ty for h in HASH_HEADS)
 
 
+SIZING = ("with_capacity", "with_capacity_and_hasher", "with_capacity_and_hasher_in", "reserve", "try_reserve", "shrink_to", "with_capacity_in")
+
+
+def capacity_escapes(b, call_t):
+    """None if the value a capacity() call returns is only ever handed to allocation-sizing functions inside this body; otherwise a
+    description of the first other use"""
+    if not call_t.get("d"):
+        return None
+    tainted = {call_t["d"]["l"]}
+    changed = True
+
+    def uses(op):
+        return op.get("k") in ("move", "copy") and op["p"]["l"] in tainted
+    while changed:
+        changed = False
+        for blk in b["blocks"]:
+            for s_ in blk["s"]:
+                if s_["k"] != "assign":
+                    continue
+                r = s_["r"]
+                src = [r.get("o")] if r["k"] in ("use", "cast") else []
+                if any(o and uses(o) for o in src) and not s_["p"]["p"] and s_["p"]["l"] not in tainted:
+                    tainted.add(s_["p"]["l"])
+                    changed = True
+    for blk in b["blocks"]:
+        for s_ in blk["s"]:
+            if s_["k"] != "assign":
+                continue
+            r = s_["r"]
+            ops = [r.get(k) for k in ("a", "b") if isinstance(r.get(k), dict)] + [o for o in r.get("os", []) if isinstance(o, dict)]
+            if r["k"] in ("use", "cast") and r.get("o") and uses(r["o"]) and s_["p"]["p"]:
+                return "stores it (line %s)" % s_["ln"]
+            if any(uses(o) for o in ops):
+                return "computes with it (line %s)" % s_["ln"]
+            if r["k"] in ("use", "cast") and r.get("o") and uses(r["o"]) and s_["p"]["l"] == 0:
+                return "returns it (line %s)" % s_["ln"]
+        t = blk["t"]
+        if t["k"] == "switch" and uses(t["o"]):
+            return "branches on it (line %s)" % t.get("ln")
+        if t["k"] == "call" and t is not call_t:
+            for a in t["args"]:
+                if uses(a):
+                    q = (t["f"].get("resolved") or t["f"]).get("q") or ""
+                    if q.split("::")[-1] not in SIZING:
+                        return "passes it to %s (line %s)" % (q, t["ln"])
+        if t["k"] == "assert" and (uses(t["c"]) or any(uses(o) for o in t["ops"])):
+            return "asserts on it (line %s)" % t.get("ln")
+    return None
+
+
 def origin(b, op, depth=0):
     """where the operand's value comes from inside this body: 'param' iff every definition chain ends in one of the function's own arguments"""
     if op.get("k") not in ("move", "copy"):
@@ -78,9 +128,10 @@ def run(cx, chk):
     chk.rule("C17.R2", "no address observation: pointer->int casts, addr(), ordered pointer comparison, pointer formatting")
     chk.rule("C17.R3", "no hash values computed in the LRU-family modules; in W-TinyLFU the hash flows only into TinyLFU")
     chk.rule("C17.R4", "no clock / random source in the LRU-family modules")
+    chk.rule("C17.R6", "HashMap::capacity() of a node index is used as an allocation-size hint only (never compared, stored or returned)")
     chk.rule("C17.R5", "a hash container that is not the node index is only consumed in iteration order when it is the caller's own argument: no hash container built inside the LRU-family modules is iterated or handed on")
     for cfg, F in cx.cfgs():
-        n_calls = n_drop = n_casts = n_cmp = n_hc = 0
+        n_calls = n_drop = n_casts = n_cmp = n_hc = n_cap = 0
         for b in F.doc["bodies"]:
             fn = F.fns[b["path"]]
             owner = fn
@@ -121,6 +172,15 @@ def run(cx, chk):
                     else:
                         chk.violation("C17.R1", "%s|%s" % (owner["q"], name), "%s iterates the hash index (%s): its order depends on the hasher and on collisions" % (owner["q"], q),
                                       file, t["ln"], fn["q"], None, cfg)
+                # R6: HashMap::capacity of a node index depends on the table's layout history (tombstones): sizing hint only
+                if name == "capacity" and node_map(st + " " + args_ty):
+                    n_cap += 1
+                    leak = capacity_escapes(b, t)
+                    if leak:
+                        chk.violation("C17.R6", "%s|capacity" % owner["q"], "%s reads the hash index's capacity() and %s: the table's capacity depends on the hasher's key layout and on tombstones left by removals"
+                                      % (owner["q"], leak), file, t["ln"], fn["q"], None, cfg)
+                    else:
+                        chk.ob("C17.R6", "%s:%s|capacity" % (cfg, owner["q"]), "capacity() flows only into allocation sizing (with_capacity*/reserve/shrink_to)")
                 # R2 addr / formatting of pointers
                 if name in ("addr", "expose_provenance", "expose_addr") and ("ptr" in q):
                     chk.violation("C17.R2", "addr|%s" % fn["q"], "%s observes an address" % q, file, t["ln"], fn["q"], None, cfg)
